@@ -40,6 +40,7 @@ func (c *webRTCConn) Read(b []byte) (int, error) {
 
 func (c *webRTCConn) Write(b []byte) (int, error) {
 	c.bytesLogger.AddInbound(len(b))
+	vhook("conn.write.counted", c, len(b))
 	c.lock.Lock()
 	defer c.lock.Unlock()
 	if c.dc != nil {
